@@ -330,3 +330,33 @@ package completion
 //@   requires e != nil && comps != nil
 //@   ensures [no-candidate-dropped] len(vals) + len(noDescVals) == len(values)
 //@   loop 1 invariant -1 <= rangeindex && rangeindex < len(values) && len(vals) + len(noDescVals) == rangeindex + 1
+
+// setPrefix decides what "the word being completed" is when the completer gives no prefix of its own: the
+// blank-delimited word that ends at the cursor. C14 ("the text after the cursor is unchanged") needs it to lie
+// before the cursor: in particular there is no such word when the cursor is at the start of the line.
+//@ func (*Engine).setPrefix
+//@   props C14 C01
+//@   terminates
+//@   requires evalid(e)
+//@   assigns e.prefix, e.cursor.pos, e.cursor.mark
+//@   let p0 = core.clampi(e.cursor.pos, len(*e.line))
+//@   ensures [nothing-before-the-cursor-no-word] len(completions.PREFIX) == 0 && p0 == 0 ==> len(e.prefix) == 0
+//@   ensures [given-prefix-kept] len(completions.PREFIX) > 0 ==> e.prefix == completions.PREFIX
+
+// gencount(): ghost, how many times candidates have been generated. Generating is the only way the engine's
+// prefix and groups come to describe the word at the cursor *now*; while the menu stays active the main loop
+// keeps them in step with the line (UpdateInserted; A-LOOP), once it is no longer active they are stale.
+//@ ghost gencount() int
+//@ spec isactive(e *Engine) bool = (e.keymap.local == "menu-select" || e.keymap.local == "isearch" || e.auto || e.autoForce) && !(e.isearchCur != nil && e.keymap.local != "isearch")
+//@ func (*Engine).IsActive
+//@   props C14 C01
+//@   terminates
+//@   requires e != nil && e.keymap != nil
+//@   pure
+//@   ensures result == isactive(e)
+//@ func (*Engine).GenerateWith
+//@   props C14
+//@   trusted runs the application's completer and rebuilds prefix, suffix and groups from its answer for the line and cursor as they are now (prepare: setPrefix is under contract; what the completer returns is the application's business, A-CALLBACK); each run is counted in gencount()
+//@   requires e != nil
+//@   assigns anyof("completion.Engine", "*"), anyof("completion.group", "*"), anyof("ui.Hint", "*"), anyghost(gencount)
+//@   ensures gencount() == old(gencount()) + 1
